@@ -140,6 +140,19 @@ def gen(src, consts):
                 and [ast.unparse(x) for x in last.body if not is_logging(x)] == ['self.check_for_errors()']
                 and isinstance(body[-2], ast.While)):
             exit_checks = False
+    # the socket is created with the connection's time-out (so that a blocked send/recv comes back and the error checks run):
+    # `sock.settimeout(self._parameters['timeout'] or None)` applied to the socket that is returned
+    cs = src.func('io.py', 'IO', '_create_socket')
+    sets_timeout = any(isinstance(n, ast.Call) and isinstance(n.func, ast.Attribute) and n.func.attr == 'settimeout'
+                       and ast.unparse(n.args[0]) in ("self._parameters['timeout'] or None", "self._parameters['timeout']")
+                       for n in ast.walk(cs) if isinstance(n, ast.Call) and n.args)
+    # the reader takes the read lock around the socket read and works on a local reference to the socket
+    rf = ast.unparse(src.func('io.py', 'IO', '_read_from_socket'))
+    read_locked = 'with self._rd_lock:' in rf
+    tail = ('/-- `IO._create_socket` gives the socket the connection\'s time-out: no send or receive blocks for ever -/\n'
+            'def socketHasTimeout : Bool := %s\n'
+            '/-- `IO._read_from_socket` reads under the read lock (which `IO.close` holds while it drops the socket) -/\n'
+            'def readUnderReadLock : Bool := %s\n' % (str(sets_timeout).lower(), str(read_locked).lower()))
     return ('namespace Amqp.Gen.Transport\n'
             '/-- the list IO (reader, writer, pollers) appends transport errors to IS the list `Connection.exceptions`\n'
             '    returns, also after open(): it is cleared in place (%s), never rebound (%s) -/\n'
@@ -153,9 +166,9 @@ def gen(src, consts):
             '    channel was closed under them -/\n'
             'def consumeLoopsCheckOnExit : Bool := %s\n'
             '/-- IDLE_WAIT sleeps between two error checks of an idle start_consuming loop -/\n'
-            'def consumeLoopSleeps : Nat := %d\n'
-            'end Amqp.Gen.Transport\n' % ('clears' if clears else 'no clear', 'rebinds' if rebinds else 'no rebind',
-                                        str(same_list).lower(), str(no_erase).lower(), str(loops_ok).lower(), str(exit_checks).lower(), n_sleeps))
+            'def consumeLoopSleeps : Nat := %d\n' + tail +
+            'end Amqp.Gen.Transport\n') % ('clears' if clears else 'no clear', 'rebinds' if rebinds else 'no rebind',
+                                        str(same_list).lower(), str(no_erase).lower(), str(loops_ok).lower(), str(exit_checks).lower(), n_sleeps)
 
 
 FILES = {'Transport.lean': gen}
